@@ -242,9 +242,63 @@ func (o *Obligation) SMT(withModel bool, forCVC5 bool) string {
 		all = append(all, w.T)
 	}
 	// eager instantiation of tquo
+	// cvaVested (x/auth vesting schedule): definition at every ground application, quantified axiom for the rest
+	{
+		var vapps []*Term
+		vseen := map[string]bool{}
+		for _, t := range all {
+			collectApps(t, func(a *Term) bool { return a.UFun && a.Op == "cvaVested" }, nil, &vapps, vseen)
+		}
+		usesVested := len(vapps) > 0
+		if !usesVested {
+			for _, t := range all {
+				if strings.Contains(t.String(), "cvaVested") {
+					usesVested = true
+					break
+				}
+			}
+		}
+		if usesVested {
+			for _, a := range vapps {
+				all = append(all, Eq(a, vestedAmountDef(a.Args[0], a.Args[1], a.Args[2], a.Args[3])))
+				hyps = append(hyps, all[len(all)-1])
+			}
+			// the quantified form is only needed when an application sits under a quantifier (e.g. "for every denomination")
+			underQuant := false
+			var hasQ func(t *Term, inQ bool)
+			hasQ = func(t *Term, inQ bool) {
+				if underQuant || t == nil {
+					return
+				}
+				if t.K == TApp && t.UFun && t.Op == "cvaVested" && inQ {
+					underQuant = true
+					return
+				}
+				for _, a := range t.Args {
+					hasQ(a, inQ || t.K == TQuant)
+				}
+			}
+			for _, t := range all {
+				hasQ(t, false)
+			}
+			if underQuant {
+				bv := []*Term{Bound("cv_ov", SInt), Bound("cv_st", SInt), Bound("cv_en", SInt), Bound("cv_tu", SInt)}
+				app := vestedAmount(bv[0], bv[1], bv[2], bv[3])
+				ax := Forall(bv, Eq(app, vestedAmountDef(bv[0], bv[1], bv[2], bv[3])), []*Term{app})
+				all = append(all, ax)
+				hyps = append(hyps, ax)
+			}
+		}
+	}
 	var apps []*Term
 	seen := map[string]bool{}
+	// `opaque tquo` in a contract: truncated division stays uninterpreted in this unit's obligations (its facts then come from
+	// lemmas only); keeps large nonlinear instance axioms out of obligations that need nothing but congruence
+	tquoOpaque := o.Opaque["tquo"]
 	for _, t := range all {
+		if tquoOpaque {
+			break
+		}
 		collectApps(t, func(a *Term) bool { return a.UFun && a.Op == "tquo" }, nil, &apps, seen)
 	}
 	var inst []*Term
@@ -279,6 +333,9 @@ func (o *Obligation) SMT(withModel bool, forCVC5 bool) string {
 		}
 		// tquo applications inside the unfolded instances
 		for _, t := range inst {
+			if tquoOpaque {
+				break
+			}
 			collectApps(t, func(a *Term) bool { return a.UFun && a.Op == "tquo" }, nil, &apps, seen)
 		}
 	}
